@@ -188,9 +188,12 @@ def prepare_affine(
     pads: list[tuple[int, ...]] = []
     new_center: list[float] = []
     need_pad = False
+    # nearest-neighbor sampling also needs a one-pixel margin, because coordinates
+    # beyond the last pixel center are treated as outside in the "constant" mode.
+    margin = max(order, 1)
     for c, s, s0 in zip(center, output_shape, img.shape):
-        x0 = int(c - s / 2 - order)
-        x1 = int(x0 + s + 2 * order + 1)
+        x0 = int(c - s / 2 - margin)
+        x1 = int(x0 + s + 2 * margin + 1)
         _sl, _pad, _need_pad = make_slice_and_pad(x0, x1, s0)
         slices.append(_sl)
         pads.append(_pad)
@@ -220,9 +223,10 @@ def prepare_affine_cornersafe(
     pads: list[tuple[int, ...]] = []
     new_center: list[float] = []
     need_pad = False
+    margin = max(order, 1)
     for c, s0 in zip(center, img.shape):
-        x0 = int(c - half_len - order)
-        x1 = int(x0 + max_len + 2 * order + 1)
+        x0 = int(c - half_len - margin)
+        x1 = int(x0 + np.ceil(max_len) + 2 * margin + 1)
         _sl, _pad, _need_pad = make_slice_and_pad(x0, x1, s0)
         slices.append(_sl)
         pads.append(_pad)
